@@ -247,7 +247,22 @@ def m_int_cmp(ex, st, callee, A):
 
 
 def m_partial_ord(ex, st, callee, A):
-    """std's provided methods of PartialOrd / the impls for references, for crate types whose partial_cmp / cmp is in the dump"""
+    """std's provided methods of PartialOrd / Ord / the impls for references, for crate types whose partial_cmp / cmp is in the dump"""
+    mo = re.match(r'^<(.*) as (?:std::cmp::)?Ord>::(max|min)$', callee)
+    if mo and mo.group(1) not in INT_TY:
+        r = ex.resolve(f'<{mo.group(1)} as Ord>::cmp', [A[0], A[1]])
+        if r is None:
+            return None
+        a, b = A[0], A[1]
+        ca, cb = ex.new_cell(st, a, 'max_a'), ex.new_cell(st, b, 'max_b')
+
+        def then_mm(st2, v, fn=mo.group(2)):
+            if not (isinstance(v, Agg) and v.variant in ('Less', 'Equal', 'Greater')):
+                raise NotEncoded(f'cmp result {v!r}')
+            if fn == 'max':
+                return a if v.variant == 'Greater' else b          # std: max returns `other` unless self > other
+            return b if v.variant == 'Greater' else a
+        return Enter(r[0], [ca, cb], then_mm, r[1])
     m = re.match(r'^<(&*)(.*) as (?:std::cmp::)?PartialOrd(?:<.*>)?>::(lt|le|gt|ge)$', callee)
     if not m or m.group(2) in INT_TY or m.group(2) in ('bool', 'char'):
         return None
@@ -617,25 +632,89 @@ def m_vec_macro(ex, st, callee, A):
             raise NotEncoded(f'vec! buffer shape: {e}')
     if re.search(r'^(?:std::vec::|alloc::vec::)?Vec::<.*>::new$', callee):
         return Agg('struct', '~vec', None, [])
+    def deref_(v):
+        n = 0
+        while isinstance(v, Ref) and n < 6:
+            v = ex.read(st, v.fid, v.place)
+            n += 1
+        return v
     if re.search(r'^<(?:std::vec::|alloc::vec::)?Vec<.*> as IntoIterator>::into_iter$', callee) and isinstance(A[0], Agg) and A[0].name == '~vec':
         return Agg('struct', '~vec_iter', None, list(A[0].fields))
-    if re.search(r'^<(?:std::vec::|alloc::vec::)IntoIter<.*> as Iterator>::next$', callee) and isinstance(A[0], Ref):
+    if re.search(r'^<(?:std::vec::|alloc::vec::)?Vec<.*> as Deref(Mut)?>::deref(_mut)?$', callee) and isinstance(A[0], Ref) and isinstance(deref_(A[0]), Agg) and deref_(A[0]).name == '~vec':
+        return A[0]
+    if re.search(r'slice::<impl \[.*\]>::iter$', callee) and isinstance(A[0], Ref):
+        v = deref_(A[0])
+        if isinstance(v, Agg) and v.name == '~vec':
+            f2, p2 = ex.resolve_place(st, A[0].fid, A[0].place) if not isinstance(ex.read(st, A[0].fid, A[0].place), Agg) else (A[0].fid, A[0].place)
+            # references to the elements in place
+            base = A[0]
+            while isinstance(ex.read(st, base.fid, base.place), Ref):
+                base = ex.read(st, base.fid, base.place)
+            return Agg('struct', '~vec_iter', None, [Ref(base.fid, ('field', base.place, i, '?')) for i in range(len(v.fields))])
+    if re.search(r'BTreeMap::<.*>::iter$', callee) and isinstance(A[0], Ref):
+        v = deref_(A[0])
+        if isinstance(v, Agg) and v.name == '~btree':
+            base = A[0]
+            while isinstance(ex.read(st, base.fid, base.place), Ref):
+                base = ex.read(st, base.fid, base.place)
+            return Agg('struct', '~vec_iter', None, [Agg('tuple', None, None, [Ref(base.fid, ('field', ('field', base.place, i, '?'), 0, '?')), Ref(base.fid, ('field', ('field', base.place, i, '?'), 1, '?'))])
+                                                      for i in range(len(v.fields))])
+    if re.search(r' as IntoIterator>::into_iter$', callee) and isinstance(A[0], Agg) and A[0].name in ('~vec_iter', '~filter_iter'):
+        return A[0]
+    if re.search(r' as Iterator>::filter::<', callee) and isinstance(A[0], Agg) and A[0].name in ('~vec_iter', '~filter_iter'):
+        return Agg('struct', '~filter_iter', None, [A[0], A[1]])
+    if re.search(r' as Iterator>::next$', callee) and isinstance(A[0], Ref):
         it = ex.read(st, A[0].fid, A[0].place)
+        r = A[0]
         if isinstance(it, Agg) and it.name == '~vec_iter':
             if not it.fields:
                 return none()
-            r = A[0]
             first, rest = it.fields[0], list(it.fields[1:])
             return [([], some(first), lambda s2: ex.write(s2, r.fid, r.place, Agg('struct', '~vec_iter', None, rest)))]
+        if isinstance(it, Agg) and it.name == '~filter_iter' and isinstance(it.fields[0], Agg) and it.fields[0].name == '~vec_iter':
+            pred = it.fields[1]
+
+            def go(st2, items):
+                """next of filter over the remaining concrete item list"""
+                if not items:
+                    return [([], none(), lambda s3: ex.write(s3, r.fid, r.place, Agg('struct', '~filter_iter', None, [Agg('struct', '~vec_iter', None, []), pred])))]
+                x, rest = items[0], list(items[1:])
+
+                def then(st3, b):
+                    if not isinstance(b, BoolV):
+                        raise NotEncoded(f'filter predicate returned {b!r}')
+                    t = z3.simplify(b.t)
+                    keep = ([t], some(x), lambda s4: ex.write(s4, r.fid, r.place, Agg('struct', '~filter_iter', None, [Agg('struct', '~vec_iter', None, rest), pred])))
+                    if z3.is_true(t):
+                        return [([], keep[1], keep[2])]
+                    more = go(st3, rest)
+                    skip = [([z3.Not(t)] + list(a[0]), a[1]) + tuple(a[2:]) for a in more] if not z3.is_false(t) else more
+                    return ([keep] if not z3.is_false(t) else []) + skip
+                cell = ex.new_cell(st2, x, 'filter_item')
+                return ex.call_closure(st2, pred, [cell], then=then)
+            res = go(st, list(it.fields[0].fields))
+            return res
+    if re.search(r'^(?:std::vec::|alloc::vec::)?Vec::<.*>::push$', callee) and isinstance(A[0], Ref):
+        v = deref_(A[0])
+        if isinstance(v, Agg) and v.name == '~vec':
+            r = A[0]
+            return [([], UNIT, lambda s2: ex.write(s2, r.fid, r.place, Agg('struct', '~vec', None, list(v.fields) + [A[1]])))]
+    if re.search(r'^(?:std::vec::|alloc::vec::)?Vec::<.*>::pop$', callee) and isinstance(A[0], Ref):
+        v = deref_(A[0])
+        if isinstance(v, Agg) and v.name == '~vec':
+            r = A[0]
+            if not v.fields:
+                return none()
+            return [([], some(v.fields[-1]), lambda s2: ex.write(s2, r.fid, r.place, Agg('struct', '~vec', None, list(v.fields[:-1]))))]
     return None
 
 
 def install(ex):
     for rx, fn in [
-        (r'new_uninit$|box_assume_init_into_vec_unsafe::<|Vec::<.*>::new$|Vec<.*> as IntoIterator>::into_iter$|IntoIter<.*> as Iterator>::next$', m_vec_macro),
+        (r'new_uninit$|box_assume_init_into_vec_unsafe::<|Vec::<.*>::(new|push|pop)$|Vec<.*> as Deref(Mut)?>::deref(_mut)?$| as IntoIterator>::into_iter$| as Iterator>::(next$|filter::<)|slice::<impl \[.*\]>::iter$|BTreeMap::<.*>::iter$', m_vec_macro),
         (r'<impl [iu](8|16|32|64|128|size)>::\w+$', m_int),
         (r'(PartialOrd|PartialEq|Ord)(<[^>]*>)?( for \w+)?>::\w+$', m_int_cmp),
-        (r'PartialOrd(<[^>]*>)?>::(lt|le|gt|ge)$', m_partial_ord),
+        (r'PartialOrd(<[^>]*>)?>::(lt|le|gt|ge)$|Ord>::(max|min)$', m_partial_ord),
         (r'(From|Into|TryFrom|TryInto)<\w+>>::(from|into|try_from|try_into)$', m_int_conv),
         (r'(Try>::branch|Try>::from_output|::from_residual)$', m_try),
         (r'Option::<', m_option),
